@@ -48,7 +48,8 @@ func Install(l *Log, stub bool) {
 				if c.Pass {
 					p = 0.5
 				}
-				res = &R.TestResult{Name: name, P: p, Q: c.Q, P2: p, Q2: c.Q, Pass: c.Pass}
+				// P2/Q2 are deliberately unrelated to the cell (failing, clustered): the decision rule uses Pass and Q only
+				res = &R.TestResult{Name: name, P: p, Q: c.Q, P2: 0.0001, Q2: 0.45, Pass: c.Pass}
 			} else {
 				res = real(b)
 			}
